@@ -340,6 +340,19 @@ func checkC02(c *Ctx) {
 			if round > 0 {
 				c.Count("injections_into_already_used_cache", 1)
 			}
+			// what no edit ever touches is, byte for byte, what it was
+			{
+				args := func(o *oci.Spec) []string {
+					if o.Process == nil {
+						return nil
+					}
+					return o.Process.Args
+				}
+				if !reflect.DeepEqual(args(got), args(initial)) || got.Hostname != initial.Hostname || !reflect.DeepEqual(got.Annotations, initial.Annotations) || !reflect.DeepEqual(got.Root, initial.Root) || got.Version != initial.Version {
+					cs.Violation("untouched-part-modified", nil, fmt.Sprintf("InjectDevices(%v) changed a part of the OCI spec that no edit touches: args %q -> %q, hostname %q -> %q, annotations %q -> %q", req, args(initial), args(got), initial.Hostname, got.Hostname, initial.Annotations, got.Annotations), wit())
+					return
+				}
+			}
 			if g, w := normJSON(got), normJSON(want); g != w {
 				cs.Violation("composition", map[string]string{"round": fmt.Sprint(round)}, fmt.Sprintf("InjectDevices(%v) differs from applying the combined edit list (round %d on this cache)\n got  %s\n want %s", req, round, g, w), wit())
 				return
